@@ -8,8 +8,11 @@ NP = 48          # parameters: 0..15 level 1, 16..31 level 2, 32..47 level 1 aga
 
 
 def value(rnd):
-    # a fresh expression, or (1 in 4) a parameter: renaming p -> q, identity p -> p
-    return rnd.randrange(64) if rnd.random() < 0.75 else 64 + rnd.randrange(NP)
+    # a fresh expression, or (1 in 4) a parameter: renaming p -> q, identity p -> p; or (1 in 8) a variable, first declaration or redeclaration
+    r = rnd.random()
+    if r < 0.125:
+        return 64 + NP + rnd.randrange(8)
+    return rnd.randrange(64) if r < 0.78 else 64 + rnd.randrange(NP)
 
 
 def gen_cases(tier, seed):
@@ -45,7 +48,7 @@ def gen_cases(tier, seed):
 
 
 def val(v):
-    return "v%d" % v if v < 64 else "p%d" % (v - 64)
+    return "v%d" % v if v < 64 else ("p%d" % (v - 64) if v < 64 + NP else "d%d" % (v - 64 - NP))
 
 
 def expected(case):
